@@ -1214,8 +1214,14 @@ func (c *compiler) Stmt(stmt ast.Stmt) {
 	case *ast.Pass:
 		// Do nothing
 	case *ast.Break:
-		l := c.loops.Top()
-		if l == nil {
+		inLoop := false
+		for i := len(c.loops) - 1; i >= 0; i-- {
+			if c.loops[i].Type == loopLoop {
+				inLoop = true
+				break
+			}
+		}
+		if !inLoop {
 			c.panicSyntaxErrorf(node, "'break' outside loop")
 		}
 		c.Op(vm.BREAK_LOOP)
